@@ -5,6 +5,7 @@ import (
 	"fmt"
 	"net"
 	"sort"
+	"strings"
 	"sync"
 
 	indexedmapv1 "github.com/atomix/atomix/api/runtime/indexedmap/v1"
@@ -13,6 +14,7 @@ import (
 	"google.golang.org/grpc"
 	"google.golang.org/grpc/codes"
 	"google.golang.org/grpc/credentials/insecure"
+	"google.golang.org/grpc/metadata"
 	"google.golang.org/grpc/status"
 	"google.golang.org/grpc/test/bufconn"
 )
@@ -32,6 +34,10 @@ type simAtomix struct {
 	// gate, when set, is called without the lock held after an indexed-map Append was executed ("appended")
 	// before an indexed-map Get is ("get") and after it was ("got"); it may block to hold the calling client at that point (C08).
 	gate func(point, name, key string)
+
+	// rpcGate, when set, is called at the start of every data RPC (not primitive Create/Close) that carries the
+	// "verif-thread" metadata key; the E2 scheduler blocks the caller there until it is scheduled.
+	rpcGate func(thread, method string)
 
 	lis *bufconn.Listener
 	srv *grpc.Server
@@ -68,13 +74,35 @@ type simStream struct {
 func newSimAtomix(f *fuse) *simAtomix {
 	s := &simAtomix{maps: map[string]*simMap{}, imaps: map[string]*simIMap{}, streams: map[*simStream]struct{}{}, fuse: f}
 	s.lis = bufconn.Listen(1 << 20)
-	s.srv = grpc.NewServer()
+	s.srv = grpc.NewServer(grpc.UnaryInterceptor(s.gateUnary), grpc.StreamInterceptor(s.gateStream))
 	mapv1.RegisterMapServer(s.srv, &simMapServer{s})
 	mapv1.RegisterMapsServer(s.srv, &simMapsServer{s})
 	indexedmapv1.RegisterIndexedMapServer(s.srv, &simIMapServer{s})
 	indexedmapv1.RegisterIndexedMapsServer(s.srv, &simIMapsServer{s})
 	go func() { _ = s.srv.Serve(s.lis) }()
 	return s
+}
+
+func (s *simAtomix) gateCall(ctx context.Context, method string) {
+	g := s.rpcGate
+	if g == nil || strings.HasSuffix(method, "/Create") || strings.HasSuffix(method, "/Close") {
+		return
+	}
+	if md, ok := metadata.FromIncomingContext(ctx); ok {
+		if v := md.Get("verif-thread"); len(v) > 0 {
+			g(v[0], method)
+		}
+	}
+}
+
+func (s *simAtomix) gateUnary(ctx context.Context, req interface{}, info *grpc.UnaryServerInfo, handler grpc.UnaryHandler) (interface{}, error) {
+	s.gateCall(ctx, info.FullMethod)
+	return handler(ctx, req)
+}
+
+func (s *simAtomix) gateStream(srv interface{}, ss grpc.ServerStream, info *grpc.StreamServerInfo, handler grpc.StreamHandler) error {
+	s.gateCall(ss.Context(), info.FullMethod)
+	return handler(srv, ss)
 }
 
 // Connect implements primitive.Client.
